@@ -54,6 +54,9 @@ def run_gen(case, agg):
     key = h8("gen", {k: case[k] for k in ("dp", "iu", "sv", "v", "c", "addr", "size")})
     with fresh_dir("c12") as d:
         out = os.path.join(d, "mpi.hex")
+        if case["i"] % 3 == 0:
+            from .. import impl
+            impl.prefill(out)
         try:
             if seed_slice(case["i"], 7):
                 m.main(mpi="generate", output_file=out, vendor_name=v, class_name=c, address=case["addr"], size=case["size"],
@@ -88,7 +91,7 @@ def run_gen(case, agg):
 SLOT = 48
 NSLOT = 8
 AREA = SLOT * NSLOT
-AREA_ADDRS = [0x1000, 0xFF40, 0x0E1FE000]
+AREA_ADDRS = [0x1000, 0xFF40, 0x0E1FE000, 0]
 PLACEMENTS = ([("al", k * SLOT) for k in range(NSLOT)] + [("hs", k * SLOT + SLOT // 2) for k in range(NSLOT - 1)]
               + [("below", -SLOT), ("lo-straddle", -SLOT // 2), ("hi-straddle", AREA - SLOT // 2), ("after", AREA),
                  ("lo-by-one-byte", -1), ("hi-by-one-byte", AREA - SLOT + 1), ("shift+1", 1), ("shift-1", AREA - SLOT - 1)])
@@ -114,6 +117,9 @@ def ref_merge(base, placements):
 
 
 def do_merge(m, base, offs, agg, key, label, via_main=False, none_files=False, repeat=None):
+    if any(base + off < 0 for off in offs):
+        agg.rej(key, "placement-below-address-zero-not-representable", nontrivial=False)
+        return
     with fresh_dir("c12m") as d:
         files = []
         for n, off in enumerate(offs):
@@ -122,6 +128,9 @@ def do_merge(m, base, offs, agg, key, label, via_main=False, none_files=False, r
             files.append(f)
         out = os.path.join(d, "merged.hex")
         want = ref_merge(base, offs)
+        if want is not None and len(offs) % 2:
+            from .. import impl
+            impl.prefill(out)
         if repeat is not None:
             # the SAME input file named twice: it overlaps itself completely and must be rejected
             files = files + [files[repeat]]
